@@ -180,4 +180,14 @@ CLAIMED['C14'] = {
     'technique': 'contract-based deductive verification (sentinel execution of the converter + symbolic execution of the CSV evaluators, equivalence by z3) + bounded differential oracle on CSV vs migrated files',
 }
 
+CLAIMED['C12'] = {
+    'category': 'proof',
+    'text': 'make_merchant_id proved injective and stable on the real helper (calls sharing the report state, while loop unrolled with an unwinding assertion); definite-assignment clause '
+            '(every name read in a renderer is bound), figure data-flow clauses (each renderer shows the analysed stats fields) and embedding clauses (escaping replaces present, data substituted last, '
+            'transaction ids indexed) decided syntactically over the real AST. The replace_all string obligation is beyond both solvers; it, the html.parser+json round trip and the category sums are '
+            'exercised by the labelled bounded oracle. One recorded known finding (JSON summary recomputes figures).',
+    'level_note': _BASE_NOTE + ' HTML and JSON parsers outside the verified text (A10); definite assignment is flow-insensitive.',
+    'technique': 'contract-based deductive verification (symbolic execution of make_merchant_id + z3; syntactic definite-assignment / data-flow / embedding clauses) + bounded decode round-trip oracle',
+}
+
 NOT_APPLICABLE = {}
